@@ -48,11 +48,27 @@ def char_spellings(v):
 
 
 def string_spellings(lit):
+    """gocc keeps the bytes between the quotes as they are written (no unescaping), so the same content can be
+    requoted whenever it is a well-formed body for the other kind of quote."""
     body = lit[1:-1]
-    if lit[0] == '"' and not any(ch in body for ch in "\\`\n"):
+    if lit[0] == '"' and not any(ch in body for ch in "`\n"):
         return ["`" + body + "`"]
-    if lit[0] == "`" and not any(ch in body for ch in '\\"\n'):
-        return ['"' + body + '"']
+    if lit[0] == "`" and "\n" not in body:
+        # as a double-quoted body: every quote escaped, only the escapes \" and \\ (so that the scanner ends at the same place)
+        i, ok = 0, True
+        while i < len(body):
+            if body[i] == "\\":
+                if i + 1 >= len(body) or body[i + 1] not in '"\\':
+                    ok = False
+                    break
+                i += 2
+            elif body[i] == '"':
+                ok = False
+                break
+            else:
+                i += 1
+        if ok:
+            return ['"' + body + '"']
     return []
 
 
